@@ -117,7 +117,26 @@ def pseudo_sweep_blocks(r):
     return out
 
 
+ENUM_VOCAB = [("PUSH", "0"), ("PUSH", "1"), ("PUSH", "20"), ("DUP1", None), ("DUP2", None), ("SWAP1", None), ("POP", None), ("ADD", None),
+              ("SUB", None), ("MUL", None), ("DIV", None), ("AND", None), ("OR", None), ("XOR", None), ("NOT", None), ("ISZERO", None),
+              ("EQ", None), ("LT", None), ("SHL", None), ("EXP", None), ("MLOAD", None), ("MSTORE", None), ("MSTORE8", None), ("SLOAD", None),
+              ("SSTORE", None), ("KECCAK256", None)]
+ENUM_FIRST = SWEEP_TASKS + PSEUDO_TASKS
+
+
 def build_op(spec):
+    if ENUM_FIRST <= spec["index"] < ENUM_FIRST + len(ENUM_VOCAB):
+        # small-scope sweep through the whole pipeline (greedy): every block of <= 3 instructions over ENUM_VOCAB that starts
+        # with one given instruction; operands (addresses included) come from the input stack
+        first = ENUM_VOCAB[spec["index"] - ENUM_FIRST]
+        bl = [[first]] + [[first, a] for a in ENUM_VOCAB] + [[first, a, b] for a in ENUM_VOCAB for b in ENUM_VOCAB]
+        bl = [b + [("STOP", None)] for b in bl]          # a -bl file is one instruction stream: only a terminator ends a block
+        flags = [[], ["-size"], ["-length"], ["-push0"], ["-storage"]][spec["index"] % 5] + ["-greedy"]
+        op = C.bl_op(bl, flags)
+        op["fmt"] = "bl"
+        op["cpu_s"] = 300
+        op["desc"] = {"split": "none", "crit": "gas", "rules": True, "push0": "-push0" not in flags, "backend": "-greedy"}
+        return op
     if SWEEP_TASKS <= spec["index"] < SWEEP_TASKS + PSEUDO_TASKS:
         r = stream(spec["seed"], spec["index"], "pseudo-sweep")
         bl = pseudo_sweep_blocks(r)
